@@ -162,6 +162,8 @@ fn one_case(seed: u64, i: u64) -> CaseOut {
         // run ends is decided by the word that is in memory when it is fetched
         let st = |label: Option<&str>, stmt: Stmt| Item::Stmt { label: label.map(|l| l.to_string()), stmt };
         let t = |l: &str| Target::Label(l.to_string());
+        // (every other time a TRAP x25 with bits [11:8] set: the vector is the low byte, it halts all the same)
+        let hw: i32 = if (i / 33) % 2 == 0 { 0xF025 } else { 0xF025 | ((1 + (i / 66) % 15) as i32) << 8 };
         let mut items: Vec<Item> = match o.origin { Some(v) => vec![Item::Orig(v)], None => vec![] };
         items.extend(match (i / 11) % 3 {
             0 => vec![
@@ -171,7 +173,7 @@ fn one_case(seed: u64, i: u64) -> CaseOut {
                 st(Some("slot"), Stmt::AddI(2, 2, 0)),
                 st(None, Stmt::AddI(3, 3, 1)),
                 st(None, Stmt::Alias(0x25)),
-                st(Some("hw"), Stmt::Fill(0xF025)),
+                st(Some("hw"), Stmt::Fill(hw)),
             ],
             1 => vec![
                 st(None, Stmt::Lea(1, t("buf"))),
@@ -183,7 +185,7 @@ fn one_case(seed: u64, i: u64) -> CaseOut {
                 st(None, Stmt::AddI(3, 3, 1)),
                 st(None, Stmt::Alias(0x25)),
                 st(Some("wadd"), Stmt::Fill(0x14A1)),
-                st(Some("hw"), Stmt::Fill(0xF025)),
+                st(Some("hw"), Stmt::Fill(hw)),
                 st(Some("buf"), Stmt::Blkw(2)),
             ],
             _ => vec![
@@ -195,13 +197,16 @@ fn one_case(seed: u64, i: u64) -> CaseOut {
                 st(Some("sub"), Stmt::AddI(1, 1, 1)),
                 st(Some("inside"), Stmt::AddI(2, 2, 0)),
                 st(None, Stmt::Ret),
-                st(Some("hw"), Stmt::Fill(0xF025)),
+                st(Some("hw"), Stmt::Fill(hw)),
             ],
         });
         items.push(Item::End);
         built.program = Program { items };
         built.input.clear();
         out.class("halt_written_at_run_time");
+        if hw != 0xF025 {
+            out.class("halt_written_at_run_time:with_bits_11_8_set");
+        }
     }
     if i % 37 == 9 {
         // a source that assembles to no word at all (comments, `.orig`, `.break`, `.end` only): running it is
